@@ -22,6 +22,7 @@ pub enum Case {
     MemRead(MemReadCase),
     FromIter(FromIterCase),
     Delta(DeltaCase),
+    Epoch(crate::multi::EpochCase),
 }
 
 impl Case {
@@ -35,6 +36,7 @@ impl Case {
             Case::MemRead(_) => "mem_read",
             Case::FromIter(_) => "from_iter_history",
             Case::Delta(_) => "address_delta_boundary",
+            Case::Epoch(_) => "many_builders_in_a_row",
         }
     }
 }
@@ -233,6 +235,7 @@ pub fn plan_to(p: &Plan) -> Value {
         "fault_at_write_call": match &p.fault_write { None => Value::Null, Some((i, st)) => json!({"index": i, "outcome": wstep_to(st)}) },
         "fault_at_flush_call": match &p.fault_flush { None => Value::Null, Some((i, k)) => json!({"index": i, "err": k.name()}) },
         "native_vectored_writes": p.vectored,
+        "error_representation": p.err_repr.name(),
     })
 }
 pub fn plan_from(v: &Value) -> R<Plan> {
@@ -287,6 +290,7 @@ pub fn plan_from(v: &Value) -> R<Plan> {
         fault_write,
         fault_flush,
         vectored: v.get("native_vectored_writes").and_then(|x| x.as_bool()).unwrap_or(false),
+        err_repr: v.get("error_representation").and_then(|x| x.as_str()).and_then(crate::sink::ErrRepr::from_name).unwrap_or(crate::sink::ErrRepr::Message),
     })
 }
 
@@ -514,6 +518,7 @@ pub fn case_to(c: &Case) -> Value {
             "one_run_of_rejected_inserts_at_half_way": m.reject_run,
         }}),
         Case::Delta(d) => json!({"address_delta_boundary": {"target_delta": d.target, "seed": d.seed.to_string()}}),
+        Case::Epoch(e) => json!({"many_builders_in_a_row": {"items": items_to(&e.items), "valued": e.valued, "empty_builders_between_the_two_builds": e.between}}),
         Case::FromIter(f) => json!({"from_iter": {"entry_point": f.entry.name(), "items": items_to(&f.items)}}),
         Case::MemRead(m) => json!({"mem_read": {
             "n_small": m.n_small, "n_large": m.n_large, "fanout": m.fanout,
@@ -547,6 +552,13 @@ pub fn case_from(v: &Value) -> R<Case> {
             bulk_stream: x.get("one_extend_stream_call").and_then(|b| b.as_bool()).unwrap_or(false),
             rejects: x.get("rejected_inserts_after_each_key").and_then(|b| b.as_u64()).unwrap_or(0) as u32,
             reject_run: x.get("one_run_of_rejected_inserts_at_half_way").and_then(|b| b.as_u64()).unwrap_or(0),
+        }));
+    }
+    if let Some(x) = v.get("many_builders_in_a_row") {
+        return Ok(Case::Epoch(crate::multi::EpochCase {
+            items: items_from(get(x, "items")?)?,
+            valued: get(x, "valued")?.as_bool().ok_or("valued")?,
+            between: get_u64(x, "empty_builders_between_the_two_builds")?,
         }));
     }
     if let Some(x) = v.get("address_delta_boundary") {
